@@ -247,8 +247,8 @@ func RunEventer(seed int64, n int, out io.Writer) {
 
 type stressLM struct{}
 
-func (stressLM) RaiseEventsTo(e b2.Eventer)              {}
-func (stressLM) Provision(ctx context.Context) error    { return nil }
+func (stressLM) RaiseEventsTo(e b2.Eventer)                  {}
+func (stressLM) Provision(ctx context.Context) error         { return nil }
 func (stressLM) CreatePartitions(ctx context.Context, n int) {}
 func (stressLM) LeasePartition(ctx context.Context, id string, index uint32) time.Duration {
 	return 30 * time.Millisecond
@@ -256,8 +256,8 @@ func (stressLM) LeasePartition(ctx context.Context, id string, index uint32) tim
 
 type stressLM1 struct{}
 
-func (stressLM1) Provision(ctx context.Context) error                 { return nil }
-func (stressLM1) CreatePartitions(ctx context.Context, n int) error   { return nil }
+func (stressLM1) Provision(ctx context.Context) error               { return nil }
+func (stressLM1) CreatePartitions(ctx context.Context, n int) error { return nil }
 func (stressLM1) LeasePartition(ctx context.Context, id string, index uint32) time.Duration {
 	return 30 * time.Millisecond
 }
@@ -393,4 +393,3 @@ func StressV1(seed int64, dur time.Duration) (panics int64) {
 	time.Sleep(40 * time.Millisecond)
 	return np.Load()
 }
-
